@@ -118,8 +118,9 @@ PROPS["C13"] = {
 
 PROPS["C14"] = {
     "title": "Parser drives the consumer in protocol order and obeys its actions",
-    "units": {"quick": ["parser_protocol", "loader"], "thorough": ["parser_protocol", "loader"]},
-    "only_items": {"loader": [r"Loader::(finalize|initialize|consume_header)"]},
+    "units": {"quick": ["parser_protocol", "loader", "parser_core", "decoder"], "thorough": ["parser_protocol", "loader", "parser_core", "decoder"]},
+    "only_items": {"loader": [r"Loader::(finalize|initialize|consume_header)"], "parser_core": [r"parse_inst", r"parse_header", r"parse_operands", r"parse_spec_constant_op"],
+                   "decoder": [r"Decoder::(word|words|set_limit|clear_limit|limit_reached|has_limit)$"]},
     "level": "proof",
     "technique": "Verus contract on the extracted Parser::parse and Action::consume over a ghost callback log declared in the Consumer trait; termination measure on the parse loop",
     "design_ref": "DESIGN.md §4 C14",
@@ -218,7 +219,7 @@ PROPS["C06"] = {
     "title": "Every module built with the Builder survives assemble-then-load unchanged",
     "units": {"quick": ["builder_sections", "builder_ops", "builder_core", "loader", "method_sweep", "reflect", "assemble"], "thorough": ["builder_sections", "builder_ops", "builder_core", "builder_gen", "loader", "assemble", "method_sweep", "reflect"]},
     "only_items": {"loader": [r"Loader::consume_instruction"], "reflect": [r"grammar::reflect::"],
-                   "assemble": [r"dr::(Block|Function|Instruction|ModuleHeader|Operand)::assemble_into"]},
+                   "assemble": [r"dr::(Block|Function|Instruction|ModuleHeader|Operand)(::| as Assemble>::)assemble_into"]},
     "engines": ["verus", "replay-bounded"],
     "level": "proof",
     "technique": "Verus: one placement obligation per instruction-emitting Builder method (1147, builder_sections) and one operand-order obligation per generated method (1096, builder_ops: lifted operand constructions vs the real grammar row, by(compute_only)); Builder::module bound/version contract; hand-written methods' emitted shapes; plus a bounded replay sweep calling every generated method once and round-tripping the module",
@@ -235,7 +236,7 @@ PROPS["C06"] = {
 PROPS["C15"] = {
     "title": "Module traversals visit exactly the assembled instruction sequence",
     "units": {"quick": ["traversal_sweep", "assemble"], "thorough": ["traversal_sweep", "assemble"]},
-    "only_items": {"assemble": [r"dr::(Block|Function|Instruction|ModuleHeader)::assemble_into"]},
+    "only_items": {"assemble": [r"dr::(Block|Function|Instruction|ModuleHeader)(::| as Assemble>::)assemble_into"]},
     "engines": ["replay-bounded", "verus"],
     "level": "model_checking",
     "technique": "bounded exhaustive enumeration of module shapes on the real crate for the iterator-chain traversals (labelled bounded); Verus proofs of Block/Function/Instruction assemble_into (loop invariants)",
@@ -254,7 +255,7 @@ PROPS["C01"] = {
     "only_items": {"reflect": [r"grammar::reflect::"], "loader": [r"Loader::", r"step_adds", r"step_appends", r"ms_", r"step_refines"],
                    "parser_protocol": [r"Parser::(parse|new)$", r"Action::consume"],
                    "parser_core": [r"parse_inst", r"parse_header", r"parse_operands", r"parse_literal", r"create_"],
-                   "assemble": [r"dr::(Block|Function|Instruction|ModuleHeader|Operand)::assemble_into", r"operand_facts"],
+                   "assemble": [r"dr::(Block|Function|Instruction|ModuleHeader|Operand)(::| as Assemble>::)assemble_into", r"operand_facts"],
                    "decoder": [r"Decoder::(string|word|words|bit64)$"]},
     "engines": ["verus", "replay-bounded"],
     "level": "proof",
